@@ -1,5 +1,6 @@
 SPECIFICATION Spec
 CONSTANT Dev = "pow_exponent_truncated"
 INVARIANT FusionSound
+INVARIANT LpNormSound
 INVARIANT DigitizeLaws
 CHECK_DEADLOCK FALSE
